@@ -25,7 +25,8 @@ RULE = ("one run per case: N in 2..8 threads, each logging 30-200 lines T<i>-<k>
         "capacities (thread 0: the single letters A..Z, so that lines consisting of F or S alone occur), "
         "through mode Direct / BufferDontFlush(c) / BufferAndFlush(c, 20 ms) / Async{pool 1-3, message capacity 8-64} (with "
         "and without flusher), to a file with size rotation (all namings, limits 64-2000 bytes) or to stdout / stderr; after shutdown "
-        "the output is read in reader order and merge-checked; non-trivial = every case (at least two threads and a rotation or a "
+        "the output is read in reader order and merge-checked; with a size criterion every closed file may exceed the limit only by its "
+        "last line; without rotation in a synchronous mode a further thread logs a line, calls flush() and must find the line in the file at once; non-trivial = every case (at least two threads and a rotation or a "
         "buffer smaller than the output); distinct = distinct case text")
 
 MODES = ["d", "b16", "b64", "b4096", "f64", "a1.8", "a2.16", "a3.64", "A2.16"]
@@ -44,7 +45,11 @@ def gen(rng, tier):
 
 
 def corpus():
-    return ["mt file a1.8 s64 num 4 50 20", "mt file d s300 ts 8 40 24", "mt stderr b64 ~ num 4 60 16", "mt stdout a2.16 ~ num 3 60 16"]
+    return ["mt file a1.8 s64 num 4 50 20", "mt file d s300 ts 8 40 24", "mt stderr b64 ~ num 4 60 16", "mt stdout a2.16 ~ num 3 60 16",
+            # one file, synchronous modes: a further thread logs, flushes and reads the file at once (C04 under contention)
+            "mt file b64 ~ num 4 200 16", "mt file b4096 ~ num 6 200 24", "mt file d ~ num 4 200 16", "mt file f64 ~ num 4 200 16",
+            # bursts into the asynchronous channel with a small size limit (C08 under concurrency)
+            "mt file a2.16 s64 num 6 200 12", "mt file a3.64 s64 numd 8 200 12"]
 
 
 def generate(rng, tier):
